@@ -225,7 +225,7 @@ def wf_lists(tier):
     """well-formed language (the one C02 uses for completeness), thinned: here only soundness is judged"""
     if tier not in _WF:
         singles = Q.W_single(tier)
-        step = 7 if tier == "quick" else 2
+        step = 7 if tier == "quick" else 5
         out = [[f] for f in singles[::step]]
         # every index plan x every kind of window, un-thinned: ids / authors / kinds / tags alone and in pairs with since, until, both, 0
         fo = Q.field_options()
